@@ -553,7 +553,7 @@ def match_shape(run):
     # selection independent of rule order: dedup, then keep only the maximum literal-part count
     names = [n for _, n in callee_names(mi)]
     run.check(any(n.endswith("InstructionMatch::is_same") for n in names), R, R + "|dedup", mi.loc(), "duplicate matches are removed with is_same", "duplicate removal (is_same) is gone")
-    run.check(any(n.endswith("Iterator::max_by_key") for n in names) and any(n.endswith("::retain") for n in names), R, R + "|max-exact", mi.loc(),
+    run.check(any(re.search(r"Iterator::(max_by_key|max|fold|reduce)$", n) or n.endswith("cmp::max") for n in names) and any(re.search(r"::(retain|retain_mut|filter)$", n) for n in names), R, R + "|max-exact", mi.loc(),
               "only matches with the maximum literal-part count are kept (max_by_key + retain)", "the literal-part filter (max_by_key + retain on exact_part_count) is gone: a rule spelling an operand literally would no longer take precedence")
     # the key of max_by_key and of retain is exact_part_count
     keyed = 0
@@ -851,6 +851,31 @@ def sk_instruction_flag(run, R="SK"):
                 cid = closure_of_origin(f.origin_op(o[1]["args"][1]))
                 g = f.prog.fn(cid) if cid else None
                 good = d.endswith(".matches)") and g is not None and deep(g, {"copy": {"l": 0, "p": []}}, 4) == "P2.encoding_statically_known"
+            if not good and st["rv"]["k"] == "use" and op_local(st["rv"]["op"]) is not None:
+                # the same conjunction gathered in the loop over the matches: a flag that starts `true` and is only ever and-ed
+                # with a match's own flag (`all &= mtch.encoding_statically_known`), inside a loop over all the matches
+                acc = f.copy_root(op_local(st["rv"]["op"]))
+                ds = f.full_defs(acc)
+                inits = [d for d in ds if d[0] == "stmt" and d[3]["rv"]["k"] == "use" and const_int(d[3]["rv"]["op"]) == 1]
+                ands = []
+                other = []
+                for d in ds:
+                    if d in inits:
+                        continue
+                    rv = d[3]["rv"] if d[0] == "stmt" else None
+                    if rv and rv["k"] == "binop" and rv["op"] == "BitAnd" and any(op_local(x) is not None and f.copy_root(op_local(x)) == acc for x in (rv["l"], rv["r"])) \
+                            and any(re.search(r"(\.encoding_statically_known|get_match_statically_known\(.*\))$", deep(f, x, 8)) for x in (rv["l"], rv["r"])):
+                        ands.append(d)
+                    else:
+                        other.append(d)
+                from mir import natural_loop
+                in_full_loop = False
+                for d in ands:
+                    for h in sorted(f.reachable()):
+                        lp = natural_loop(f, h)
+                        if lp and d[1] in lp and not any(f.blocks[b]["term"]["k"] == "goto" and False for b in lp):
+                            in_full_loop = True
+                good = len(inits) == 1 and bool(ands) and not other and in_full_loop
             if not good:
                 bad.append(deep(f, st["rv"]["op"], 4)[:120] if st["rv"]["k"] == "use" else st["rv"]["k"])
     run.check(n >= 1 and not bad, R, "SK|instruction-flag|all-candidates", f.loc(), "an instruction is statically known only when all of its candidate matches are (%d store(s))" % n,
